@@ -163,6 +163,57 @@ Definition ser_double_fmt (fmt : option (list byte)) (c : dclass) (nozero : bool
 Inductive numloc := NumC | NumComma.
 Definition sep_of (n : numloc) : byte := match n with NumC => CH_DOT | NumComma => CH_COMMA end.
 
+(* ---- concurrency.  Threads each have their own numeric locale (uselocale, or the global one);
+   the only state they share that is related to locales is the static struct lconv that ANY
+   thread's localeconv() call overwrites with the separator of THAT thread's locale.  A job is
+   one call of the double serializer by some thread; a schedule interleaves jobs with clobbering
+   localeconv() calls of arbitrary threads.  The serializer AS WRITTEN searches for the literal
+   ',' and never reads the shared cell, so the cell is threaded through unchanged and unused. *)
+Record ser_job := mk_job {
+  j_thread : nat;
+  j_fmt : option (list byte);
+  j_class : dclass;
+  j_nozero : bool;
+  j_txt : numloc -> list byte      (* the snprintf oracle for this format and double: text per numeric locale *)
+}.
+Inductive sched_ev := SJob (j : ser_job) | SClobber (t : nat).
+
+(* the specification: a function of the job's tree data alone — NO locale, NO thread, NO shared state *)
+Definition ser_spec (j : ser_job) : list byte :=
+  ser_double_fmt (j_fmt j) (j_class j) (j_nozero j) (j_txt j NumC).
+
+(* one step of the concurrent system: shared cell, output log *)
+Definition conc_step (tl : nat -> numloc) (st : byte * list (list byte)) (e : sched_ev) : byte * list (list byte) :=
+  let '(cell, outs) := st in
+  match e with
+  | SClobber t => (sep_of (tl t), outs)
+  | SJob j => (cell, outs ++ [ser_double_fmt (j_fmt j) (j_class j) (j_nozero j) (j_txt j (tl (j_thread j)))])
+  end.
+Definition conc_run (tl : nat -> numloc) (cell0 : byte) (sch : list sched_ev) : list (list byte) :=
+  snd (fold_left (conc_step tl) sch (cell0, [])).
+
+Fixpoint jobs_of (sch : list sched_ev) : list ser_job :=
+  match sch with
+  | [] => []
+  | SJob j :: t => j :: jobs_of t
+  | SClobber _ :: t => jobs_of t
+  end.
+
+(* for contrast (the way NOT to write it): the separator to rewrite is read from the shared cell *)
+Definition comma_fix_cell (cell : byte) (buf : list byte) : list byte * option nat :=
+  match strchr cell buf with
+  | Some i => (set_nth i CH_DOT buf, Some i)
+  | None => (buf, strchr CH_DOT buf)
+  end.
+Definition double_text_cell (cell : byte) (drops nozero : bool) (buf : list byte) : list byte :=
+  let '(b1, p) := comma_fix_cell cell buf in
+  let b2 := add_dot0_fmt drops b1 p in
+  match p with
+  | Some i => if nozero then nozero_trim b2 i else b2
+  | None => b2
+  end.
+
+
 (* a locale_t value: NULL, the handle the caller had installed on entry (LC_GLOBAL_LOCALE or
    the caller's own object — never inspected, never freed by a correct callee), or an object
    created during this call *)
